@@ -5,6 +5,11 @@
 //	public API: explode, implode, split/1, join, @base64, @base64d, @uri, @urid, tostring,
 //	tonumber, gmtime, mktime, todate, fromdate) vs Model/Codec.lean + Model/Calendar.lean.
 //
+// correspondence stream `pairs`: the jq-defined pairs (to_entries, from_entries, with_entries(.),
+//
+//	[paths], [tostream], [fromstream(.[])], the setpath replay of stream events) through the
+//	public API vs Model/Pairs.lean + Model/Cli/Stream.lean (the functions Props/C13Pairs.lean is about).
+//
 // oracle (model-free search, oracle.go): every law of the property evaluated as a jq boolean by
 //
 //	the real code on the value universe and on random nested values.
@@ -405,9 +410,160 @@ func main() {
 	st.Exhaustive = false
 
 	runOracle(ctx)
+	runPairs(ctx)
 	ctx.Res.Notes = append(ctx.Res.Notes,
 		"explode on invalid UTF-8 yields 65533 per invalid byte; implode rejects no integer (surrogates, negatives, >0x10FFFF silently become U+FFFD) — modelled as coded",
 		"fromdate: only the zero-padded shape DDDD-DD-DDTDD:DD:DDZ is modelled; other shapes timefmt accepts are answered `?shape` and counted as unmodelled",
 		"tostring on json.Number carriers is the literal text, not compared by the stream")
 	ctx.Finish()
+}
+
+// ---- stream `pairs`: the jq-defined pairs vs their value-level models ---------------------------
+
+func ansValue(v any, err error) string {
+	if err != nil {
+		if strings.HasPrefix(err.Error(), "PANIC") {
+			return "PANIC " + err.Error()
+		}
+		return "err"
+	}
+	return "ok " + common.Canon(v)
+}
+
+// mutateEntry turns a {"key","value"} entry into one of the other shapes from_entries accepts or rejects.
+func mutateEntry(r *common.Rand, e any) any {
+	m, ok := e.(map[string]any)
+	if !ok {
+		return e
+	}
+	out := map[string]any{}
+	for k, v := range m {
+		out[k] = v
+	}
+	switch r.Intn(10) {
+	case 0, 1: // another spelling of the key
+		out[common.Pick(r, []string{"Key", "name", "Name", "k", "K"})] = out["key"]
+		delete(out, "key")
+	case 2: // a falsy key in front of another spelling
+		out[common.Pick(r, []string{"Key", "name", "Name"})] = out["key"]
+		out["key"] = common.Pick(r, []any{nil, false})
+	case 3: // a key that is not a string
+		out["key"] = common.Pick(r, []any{nil, false, true, 0, 1, 1.5, []any{}, map[string]any{}})
+	case 4: // another spelling of the value
+		out[common.Pick(r, []string{"Value", "v"})] = out["value"]
+		delete(out, "value")
+	case 5: // value present but null/false, Value present too
+		out["Value"] = out["value"]
+		out["value"] = common.Pick(r, []any{nil, false})
+	case 6:
+		delete(out, "value")
+	case 7:
+		delete(out, "key")
+	case 8: // not an object
+		return common.Pick(r, []any{nil, false, 0, "key", []any{}, []any{"key", "a"}})
+	}
+	return out
+}
+
+func runPairs(ctx *common.Ctx) {
+	r := ctx.R
+	st := ctx.NewStream("pairs", "Gojq.Pairs.{toEntries,fromEntries,withEntries,allPaths,replayEvents} (Model/Pairs.lean), Gojq.Stream.{streamSpec,fromstreamSpec} (Model/Cli/Stream.lean) — the functions the theorems of Props/C13Pairs.lean are about",
+		"to_entries, from_entries, with_entries(.), [paths], [tostream] through the public API on every universe value, hand-picked awkward objects and random nested values (empty containers at root and nested; awkward and non-UTF-8 keys; every number class); from_entries also on the real to_entries outputs and on mutated entry lists (Key/name/Name/k spellings, falsy and non-string keys, Value/v, missing fields, non-object entries, objects of entries); [fromstream(.[])] and the setpath replay on the real [tostream] outputs, on several documents in a row, on truncated lists and on lists with a dropped, swapped, repeated or index-shifted event; distinct = distinct implementation answers")
+	var lines, impl []string
+	add := func(op string, in any, src string) {
+		v, err := q(src).first(in)
+		ans := ansValue(v, err)
+		lines = append(lines, op+" "+common.Canon(in))
+		impl = append(impl, ans)
+		st.Distribution[op+":"+strings.SplitN(ans, " ", 2)[0]]++
+	}
+	var values []any
+	values = append(values, common.Universe(false)...)
+	values = append(values,
+		map[string]any{"": map[string]any{"": []any{}}}, []any{[]any{}, map[string]any{}, []any{[]any{}}}, map[string]any{"a\"b": map[string]any{"\\": []any{nil}}, "\n": map[string]any{}},
+		map[string]any{"\xff": 1, "a\xc3": []any{}}, map[string]any{"key": "value", "value": "key"}, map[string]any{"name": nil, "value": false},
+		map[string]any{"k": map[string]any{"key": 1, "value": 2}}, map[string]any{"Key": 1, "Name": 2, "Value": 3, "key": 4, "name": 5, "value": 6},
+		[]any{map[string]any{"key": "a", "value": 1}, map[string]any{"key": "a", "value": 2}}, map[string]any{"x": map[string]any{"key": "q", "value": 1}})
+	for i := 0; i < ctx.N(2500, 25000); i++ {
+		if i%3 == 0 {
+			values = append(values, common.RandValue(r, common.DefaultGen, 0))
+		} else {
+			values = append(values, randNested(r, 0))
+		}
+	}
+	var eventLists [][]any
+	for i, v := range values {
+		add("to_entries", v, "to_entries")
+		add("from_entries", v, "from_entries")
+		add("with_entries", v, "with_entries(.)")
+		add("paths", v, "[paths]")
+		add("tostream", v, "[tostream]")
+		if es, err := q("to_entries").first(v); err == nil {
+			add("from_entries", es, "from_entries")
+			if xs, ok := es.([]any); ok && len(xs) > 0 {
+				ys := make([]any, len(xs))
+				copy(ys, xs)
+				for k := 0; k <= r.Intn(2); k++ {
+					j := r.Intn(len(ys))
+					ys[j] = mutateEntry(r, ys[j])
+				}
+				add("from_entries", ys, "from_entries")
+				add("with_entries", ys, "with_entries(.)")
+			}
+		}
+		if evs, err := q("[tostream]").first(v); err == nil && (i < 400 || i%2 == 0) {
+			eventLists = append(eventLists, evs.([]any))
+		}
+	}
+	n := len(eventLists)
+	for i := 0; i < n; i++ {
+		evs := eventLists[i]
+		switch r.Intn(6) {
+		case 0: // several documents in a row
+			cat := append([]any{}, evs...)
+			for k := 0; k <= r.Intn(2); k++ {
+				cat = append(cat, eventLists[r.Intn(n)]...)
+			}
+			eventLists = append(eventLists, cat)
+		case 1: // truncated
+			eventLists = append(eventLists, evs[:r.Intn(len(evs)+1)])
+		case 2: // one event dropped
+			if len(evs) > 1 {
+				j := r.Intn(len(evs))
+				eventLists = append(eventLists, append(append([]any{}, evs[:j]...), evs[j+1:]...))
+			}
+		case 3: // two events swapped
+			if len(evs) > 1 {
+				ys := append([]any{}, evs...)
+				a, b := r.Intn(len(ys)), r.Intn(len(ys))
+				ys[a], ys[b] = ys[b], ys[a]
+				eventLists = append(eventLists, ys)
+			}
+		case 4: // one event repeated
+			j := r.Intn(len(evs))
+			ys := append(append([]any{}, evs[:j+1]...), evs[j:]...)
+			eventLists = append(eventLists, ys)
+		default: // an index shifted / a key replaced in one path
+			ys := common.DeepCopy(evs).([]any)
+			ev := ys[r.Intn(len(ys))].([]any)
+			if p, ok := ev[0].([]any); ok && len(p) > 0 {
+				j := r.Intn(len(p))
+				switch x := p[j].(type) {
+				case int:
+					p[j] = x + common.Pick(r, []int{1, 2, -1, 5})
+				case string:
+					p[j] = common.Pick(r, []any{"zz", 0, "", nil})
+				}
+			}
+			eventLists = append(eventLists, ys)
+		}
+	}
+	eventLists = append(eventLists, []any{}, []any{[]any{[]any{}, 1}, []any{[]any{}, 2}}, []any{[]any{[]any{0}}}, []any{[]any{[]any{1}, 7}, []any{[]any{1}}},
+		[]any{[]any{[]any{"a", 0}, nil}, []any{[]any{"a", 0}}, []any{[]any{"a"}}}, []any{[]any{[]any{0}, 1}, []any{[]any{"a"}, 2}})
+	for _, evs := range eventLists {
+		add("fromstream", evs, "[fromstream(.[])]")
+		add("replay", evs, "reduce (.[] | select(length == 2)) as [$p, $x] (null; setpath($p; $x))")
+	}
+	ctx.RunStream(st, lines, impl)
+	st.Exhaustive = false
 }
